@@ -131,6 +131,16 @@ class G:
     sg.operators.append(o)
     return len(sg.operators) - 1
 
+  def metadata(self, name, data):
+    """A metadata entry (e.g. min_runtime_version): a named reference to a buffer that no tensor uses."""
+    md = S.MetadataT()
+    md.name = name.encode() if isinstance(name, str) else name
+    md.buffer = self.buffer(np.frombuffer(bytes(data), np.uint8))
+    if self.m.metadata is None:
+      self.m.metadata = []
+    self.m.metadata.append(md)
+    return md.buffer
+
   def signature(self, key, sgidx, ins, outs):
     sd = S.SignatureDefT()
     sd.signatureKey = key.encode()
@@ -459,6 +469,9 @@ def build(scn, seed=0, rng=None, const_fn=None, signatures=True, name_fn=None):
       if sub.get("sigrev"):      # the signature lists its entries in another order than the subgraph
         sins, souts = sins[::-1], souts[::-1]
       g.signature(key, si, sins, souts)
+      if scn.get("sigalias") and si == 0:
+        # a second signature def for the same subgraph (an alias key): legal, the interpreter serves both keys
+        g.signature("alias0", si, sins, souts)
     info["names"].append(names)
     info["shapes"].append(shapes)
     info["nt0"].append(len(role))
